@@ -1,22 +1,22 @@
-/* unit cbor_strref: stringref (tag 25/256) eligibility and index assignment in the CBOR encoder */
+/* unit cbor_strref: stringref (tag 25/256) index assignment in the CBOR encoder */
 #include "vx_common.h"
 #include "spec_cbor.h"
 
 struct cbor_encoder { bool pack_strings_; size_t next_stringref_; };
-/* ghost model of the two std::unordered_maps: only their sizes and the result of find() */
-static size_t vx_text_count, vx_bytes_count;
-static bool vx_find_result;
+/* ghost model of the two std::unordered_maps: only the result of find() and what is entered */
+static bool vx_find_result; static size_t vx_text_count, vx_bytes_count;
 static unsigned vx_registered; static size_t vx_reg_index; static size_t vx_items;
 enum { VX_OUT_NONE = 0, VX_OUT_LITERAL, VX_OUT_REF };
 static int vx_out;
 static void vx_out_literal(void) { __CPROVER_assert(vx_out == VX_OUT_NONE, "[C06][C08] exactly one encoding is written per string"); vx_out = VX_OUT_LITERAL; }
 static void vx_out_ref(void) { __CPROVER_assert(vx_out == VX_OUT_NONE, "[C06][C08] exactly one encoding is written per string"); vx_out = VX_OUT_REF; }
-#define VX_REGISTER_TEXT(idx) do { vx_reg_index = (idx); vx_registered++; vx_text_count++; } while (0)
-#define VX_REGISTER_BYTES(idx) do { vx_reg_index = (idx); vx_registered++; vx_bytes_count++; } while (0)
+#define VX_REGISTER(idx) do { vx_reg_index = (idx); vx_registered++; } while (0)
 #define VX_UTF8_VALIDATED() do { } while (0)
 #define VX_PROLOGUE_CUT() do { } while (0)
 
 /*@FUNC min_length_for_stringref@*/
+/*@FUNC write_byte_string@*/
+/*@FUNC write_bignum@*/
 /*@FUNC write_string@*/
 /*@FUNC visit_byte_string@*/
 /*@FUNC visit_byte_string_tagged@*/
@@ -25,17 +25,19 @@ static void vx_out_ref(void) { __CPROVER_assert(vx_out == VX_OUT_NONE, "[C06][C0
 static struct cbor_encoder vx_enc;
 static void setup_enc(void)
 {
-    vx_text_count = nondet_size(); vx_bytes_count = nondet_size();
-    __CPROVER_assume(vx_text_count < ((size_t)1 << 60) && vx_bytes_count < ((size_t)1 << 60));
+    vx_enc.pack_strings_ = nondet_bool(); vx_enc.next_stringref_ = nondet_size();
+    __CPROVER_assume(vx_enc.next_stringref_ < ((size_t)1 << 60));
 #ifdef VX_SMALL
-    __CPROVER_assume(vx_text_count <= 300 && vx_bytes_count <= 300);
+    __CPROVER_assume(vx_enc.next_stringref_ <= 300);
 #endif
-    vx_enc.pack_strings_ = nondet_bool(); vx_enc.next_stringref_ = vx_text_count + vx_bytes_count;
     vx_registered = 0; vx_out = VX_OUT_NONE; vx_items = 0;
     vx_find_result = nondet_bool();
+    vx_text_count = nondet_size(); vx_bytes_count = nondet_size(); __CPROVER_assume(vx_text_count <= vx_enc.next_stringref_ && vx_bytes_count <= vx_enc.next_stringref_ - vx_text_count);
 }
 void h_min_length(void) { min_length_for_stringref(nondet_u64()); }
-void h_write_string(void) { setup_enc(); if (vx_text_count == 0) vx_find_result = false; size_t vx_len = nondet_size(); write_string(&vx_enc, vx_len); }
-void h_bytes(void) { setup_enc(); if (vx_bytes_count == 0) vx_find_result = false; size_t vx_len = nondet_size(); visit_byte_string(&vx_enc, vx_len); }
-void h_bytes_tagged(void) { setup_enc(); if (vx_bytes_count == 0) vx_find_result = false; size_t vx_len = nondet_size(); visit_byte_string_tagged(&vx_enc, vx_len); }
+void h_write_byte_string(void) { setup_enc(); write_byte_string(&vx_enc, nondet_size()); }
+void h_write_bignum(void) { setup_enc(); write_bignum(&vx_enc, nondet_size()); }
+void h_write_string(void) { setup_enc(); write_string(&vx_enc, nondet_size()); }
+void h_bytes(void) { setup_enc(); visit_byte_string(&vx_enc, nondet_size()); }
+void h_bytes_tagged(void) { setup_enc(); visit_byte_string_tagged(&vx_enc, nondet_size()); }
 #endif
